@@ -32,6 +32,7 @@ CORE = [K + "__or", K + "__sub"]
 # are run on the real code (pvc/bex_misc.py).  If a body no longer has this form the decision is no longer complete: the runs
 # still count as a bounded check and the obligation is listed as no longer proved (PROOF-LOST), not as a violation.
 from contracts.f2_forms import FORMS as F2_FORMS
+from ._groups import EXC
 
 
 def f2(rep):
@@ -153,7 +154,7 @@ def run(rep, tier):
     f2(rep)
     f3(rep)
     # interval core: VCs with loop invariants over lists-as-maps, all list lengths, all code points
-    vcrun.run_functions(rep, INTERVAL + OPERATORS + CORE, tier)
+    vcrun.run_functions(rep, INTERVAL + OPERATORS + CORE + EXC, tier)
     rep.assumptions.append("G8b (__or, __sub) is relative to the assumed contracts of the text layer: __extract_classes(t, unescape=True) "
                            "returns well-formed unescaped ranges and characters that list exactly what t lists; __modify_classes(S, "
                            "escape=True) printed between brackets lists exactly what S denotes; __process keeps what the text lists "
